@@ -136,6 +136,19 @@ pub fn run(w: &mut W) {
         w.rep.count(&format!("extreme.{}", name), 1);
         run_history(w, h);
     }
+    // id-space histories: thousands of live template ids per map, data for each, then templates of
+    // the other kind (crash / overflow / hang monitors only; the oracles run under C04-C06)
+    let base = ext.len() as u64;
+    for k in 0..4u64 {
+        if !w.oneoff(base + k) {
+            continue;
+        }
+        let _ = w.begin_case(crate::worker::ONEOFF + base + k, "id-space");
+        let (name, bufs) = super::idspace::histories(w).swap_remove(k as usize);
+        let h = History { family: "idspace", parsers: vec![super::common::Allowed::Default], ops: bufs.into_iter().map(|b| (0usize, b)).collect() };
+        w.rep.count(&format!("idspace.{}", name), 1);
+        run_history(w, h);
+    }
     for idx in w.indices() {
         let mut rng = w.begin_case(idx, "history");
         let h = hostile_history(&mut rng, &w.pools, &w.corpus);
